@@ -209,7 +209,7 @@ def tree_part(run):
     depth = max(len(v[1]) for v in states.values())
     leaves = sorted(k for k, v in states.items() if len(v[1]) == depth)
     rnd = random.Random(run.seed + 5)
-    nsel = 1500 if quick else 12000
+    nsel = 1500 if quick else 5000
     if len(leaves) > nsel:
         # keep histories that end with, or contain, a structural edit after an envelope was formed (stale entries) over-represented
         def weight(k):
